@@ -8,12 +8,13 @@ from tools.cxx2c import Lower, Unsupported, kids, qt, qt_sugar, strip, strip_par
 NAME = 'SEMK'
 SRC = '/repo/src/bloch/compiler/semantics/semantic_analyser.cpp'
 NAMESPACE = 'bloch::compiler'
-FUNCS = ['isArrayTypeName', 'isArrayType', 'isClassRefType', 'isAccessible', 'isAssignableType', 'conversionCost']
+FUNCS = ['isArrayTypeName', 'isArrayType', 'isClassRefType', 'isAccessible', 'isAssignableType', 'conversionCost', 'resolveField', 'recordFinalFieldAssignment']
 LAMBDAS = ['matchesPrimitive', 'numericPromotion']
-AST_FILTER = ['isArrayTypeName', 'isArrayType', 'isClassRefType', 'SemanticAnalyser::isAccessible', 'SemanticAnalyser::isAssignableType', 'SemanticAnalyser::conversionCost',
-              'matchesPrimitive', 'numericPromotion', 'SemanticAnalyser::validateTypedInitializer', 'ValueType', 'Visibility']
+AST_FILTER = ['isArrayTypeName', 'isArrayType', 'isClassRefType', 'SemanticAnalyser::isAccessible', 'SemanticAnalyser::isAssignableType', 'SemanticAnalyser::conversionCost', 'SemanticAnalyser::resolveField', 'SemanticAnalyser::recordFinalFieldAssignment',
+              'matchesPrimitive', 'numericPromotion', 'SemanticAnalyser::validateTypedInitializer', 'ValueType', 'Visibility', 'SemanticAnalyser::visit']
 SHIM = 'semk.h'
-THROWING = {'validateTypedInitializer_decision'}
+SITES = ['ReturnStatement', 'AssignmentStatement', 'AssignmentExpression', 'MemberAssignmentExpression']
+THROWING = {'validateTypedInitializer_decision', 'resolveField', 'recordFinalFieldAssignment'} | {'visit_' + x for x in SITES}
 DROPS = ['class / array type names: interned identities; their text only through two uninterpreted functions (size, position of the last "[]")',
          'TypeInfo::typeArgs: only its element count; typeEquals, isSubclassOf, inheritanceDistance, getTypeParamBound: contract-only stubs (uninterpreted class hierarchy)',
          'diagnostic message text; the AST-dependent refinements of the error message in validateTypedInitializer (dynamic_cast on the initialiser) are evaluated as arbitrary booleans',
@@ -36,6 +37,13 @@ class Profile(Lower):
         (r'^std::optional<(bloch::compiler::)?(SemanticAnalyser::)?TypeInfo>$', 'opt_TypeInfo'),
         (r'^std::vector<(bloch::compiler::)?(SemanticAnalyser::)?TypeInfo>$', 'size_t'),
         (r'^(const )?std::nullopt_t$', 'bl_nullopt'),
+        (r'^(bloch::compiler::)?(ReturnStatement|AssignmentStatement|AssignmentExpression|MemberAssignmentExpression|PostfixExpression)$', 'bl_node'),
+        (r'^std::unique_ptr<(bloch::compiler::)?Expression(, std::default_delete<.*>)?>$', 'bl_ast'),
+        (r'^(bloch::compiler::)?(Expression|ASTNode) \*$', 'bl_ast'),
+        (r'^(const )?(bloch::compiler::)?(SemanticAnalyser::)?FieldInfo \*$', 'FieldInfo *'),
+        (r'^(const )?(bloch::compiler::)?(SemanticAnalyser::)?FieldInfo$', 'FieldInfo'),
+        (r'^(const )?(bloch::compiler::)?(SemanticAnalyser::)?ClassInfo \*$', 'bl_clsinfo'),
+        (r'^(bloch::compiler::)?SemanticAnalyser$', 'bl_self'),
     ]
 
     def prepare(self, docs, workdir):
@@ -52,7 +60,10 @@ class Profile(Lower):
                 'enum { %s };' % ', '.join('BL_' + e for e in self.enums['Visibility']),
                 'typedef struct { int value; bl_cname className; size_t typeArgs; _Bool isTypeParam; } TypeInfo;',
                 'typedef struct { _Bool has; int v; } opt_int;',
-                'typedef struct { _Bool has; TypeInfo v; } opt_TypeInfo;']
+                'typedef struct { _Bool has; TypeInfo v; } opt_TypeInfo;',
+                'typedef int bl_ast; typedef int bl_clsinfo;',
+                'typedef struct { bl_ast value; bl_ast object; bl_cname name; bl_cname member; int line; int column; } bl_node;',
+                'typedef struct { int visibility; _Bool isStatic; _Bool isFinal; _Bool hasInitializer; TypeInfo type; bl_cname owner; int line; int column; } FieldInfo;']
 
     def string_literal(self, n):
         raise Unsupported('string literal in a name context: ' + n.get('value', ''))
@@ -78,10 +89,39 @@ class Profile(Lower):
             return self.expr(kids(n)[0])
         return super().cast(n)
 
+    def cast_other(self, n, ck, inner):
+        if ck == 'PointerToBoolean' and self.ct(inner) in ('FieldInfo *', 'bl_clsinfo', 'bl_ast'):
+            return '(%s != 0)' % self.expr(inner)
+        return super().cast_other(n, ck, inner)
+
+    REF_LOCALS_AS_COPIES = False
+
+    def decl(self, v):
+        t = qt(v)
+        if norm_type(t) == 'int' and t.rstrip().endswith('&') and not t.strip().startswith('const'):
+            # int& x = <lvalue>;  ->  int *x = &(<lvalue>);  uses of x become (*x)
+            init = [i for i in kids(v) if 'kind' in i]
+            self.locals.add(v['name'])
+            self.ref_locals = getattr(self, 'ref_locals', set()) | {v['name']}
+            return 'int *%s = &(%s);' % (v['name'], self.expr(init[0]))
+        return super().decl(v)
+
     def declref(self, n):
         if n['referencedDecl']['name'] == 'nullopt':
             return 'BL_NULLOPT'
+        if n['referencedDecl']['name'] in getattr(self, 'ref_locals', set()):
+            return '(*%s)' % n['referencedDecl']['name']
+        if n['referencedDecl']['name'] in getattr(self, 'dropped_strings', set()):
+            raise Unsupported('built string %s used outside a diagnostic message' % n['referencedDecl']['name'])
         return super().declref(n)
+
+    def name_concat_leaves(self, n):
+        n = strip_parens(n)
+        while n.get('kind') in ('ImplicitCastExpr', 'MaterializeTemporaryExpr', 'CXXBindTemporaryExpr', 'ExprWithCleanups') and kids(n):
+            n = strip_parens(kids(n)[0])
+        if n.get('kind') == 'CXXOperatorCallExpr' and callee_name(kids(n)[0]) == 'operator+':
+            return self.name_concat_leaves(kids(n)[1]) + self.name_concat_leaves(kids(n)[2])
+        return [n]
 
     def opcall(self, n):
         ks = kids(n)
@@ -99,15 +139,28 @@ class Profile(Lower):
             return '(%s).v' % self.expr(args[0])
         if op == 'operator->' and t0 == 'opt_TypeInfo':
             return '(%s).v' % self.expr(args[0])
+        if op == 'operator[]' and 'unordered_map<std::basic_string<char>, int' in norm_type(qt(args[0])) and self.ct(args[1]) == 'bl_cname':
+            return '(*semk_count_slot(%s))' % self.expr(args[1])
+        if op == 'operator=' and t0 == 'TypeInfo':
+            return '(%s = %s)' % (self.expr(args[0]), self.expr(args[1]))
+        if op == 'operator->' and t0 == 'bl_ast':
+            return self.expr(args[0])
         if op == 'operator()' and strip_parens(args[0]).get('kind') == 'DeclRefExpr' and strip_parens(args[0])['referencedDecl']['name'] in LAMBDAS:
             return 'semk_%s(%s)' % (strip_parens(args[0])['referencedDecl']['name'], ', '.join(self.expr(a) for a in args[1:]))
         if op == 'operator+' and self.ct(n) == 'bl_cname':
-            return '0 /* message text dropped */'
+            lv = self.name_concat_leaves(n)
+            if len(lv) == 3 and lv[1].get('kind') == 'StringLiteral' and lv[1].get('value') == '"::"' and self.ct(lv[0]) == 'bl_cname' and self.ct(lv[2]) == 'bl_cname':
+                return 'bl_key2(%s, %s)' % (self.expr(lv[0]), self.expr(lv[2]))       # owner + "::" + field : a pair key
+            raise Unsupported('string concatenation outside a diagnostic message')
         raise Unsupported('operator %s on %s' % (op, qt(args[0])))
 
     def member(self, n):
         base = kids(n)[0]
         sb = strip(base)
+        if sb.get('kind') == 'CXXThisExpr':
+            return 'sa_' + n['name']          # analyser state: file-level variables (arbitrary on entry)
+        if self.ct(base) == 'bl_clsinfo':
+            raise Unsupported('member %s of ClassInfo' % n['name'])
         if sb.get('kind') == 'CXXOperatorCallExpr' and callee_name(kids(sb)[0]) == 'operator->':
             return '(%s).%s' % (self.expr(sb), n['name'])
         return super().member(n)
@@ -117,6 +170,13 @@ class Profile(Lower):
         o = self.expr(obj)
         if name == 'operator bool' and t in ('opt_int', 'opt_TypeInfo'):
             return '(%s).has' % o
+        if t == 'bl_ast' and name == 'get':
+            return o
+        if t == 'bl_ast' and name == 'operator bool':
+            return '(%s != 0)' % o
+        if t == 'bl_ast' and name == 'accept':
+            self.needs_prop = True
+            return 'semk_stub_accept(%s)' % o       # nested analysis of the sub-expression: contract-only stub (may raise)
         if t == 'bl_cname':
             if name == 'empty':
                 return '(%s == 0)' % o
@@ -142,12 +202,19 @@ class Profile(Lower):
             return self.call_named(n, me['name'], ks[1:])
         return super().membercall(n)
 
-    STUBFN = {'typeEquals', 'isSubclassOf', 'inheritanceDistance', 'getTypeParamBound', 'typeLabel', 'typeToString'}
+    STUBFN = {'typeEquals', 'isSubclassOf', 'inheritanceDistance', 'getTypeParamBound', 'typeLabel', 'typeToString',
+              'isDeclared', 'isFinal', 'getVariableType', 'inferDiamondTypeArguments', 'inferTypeInfo',
+              'findClass', 'findFieldInHierarchy', 'isTypeReference', 'isThisReference', 'substituteTypeParams', 'combine'}
+    MAY_THROW = {'inferDiamondTypeArguments', 'inferTypeInfo'}
+    KEEP_ARGS = {'substituteTypeParams': 1}     # arguments beyond this count are dropped (type-parameter lists)
 
     def call_named(self, n, name, args):
         if name in self.STUBFN:
             if name in ('typeLabel', 'typeToString'):
                 return '0 /* message text dropped */'
+            if name in self.MAY_THROW:
+                self.needs_prop = True
+            args = args[:self.KEEP_ARGS.get(name, len(args))]
             return 'semk_stub_%s(%s)' % (name, ', '.join(self.expr(a) for a in args))
         return super().call_named(n, name, args)
 
@@ -165,6 +232,11 @@ class Profile(Lower):
             v = kids(ks[i])[0]
             out += self.stmt(ks[i], ind + 1)
             cond = '(%s).has' % v['name']
+            rest = ks[i + 2:]
+        elif n.get('hasVar') and self.ctype_safe(qt(kids(ks[i])[0])) == 'FieldInfo *':
+            v = kids(ks[i])[0]
+            out += self.stmt(ks[i], ind + 1)
+            cond = '(%s != 0)' % v['name']
             rest = ks[i + 2:]
         elif n.get('hasVar'):
             v = kids(ks[i])[0]
@@ -235,6 +307,19 @@ def lower_regions(docs, prof):
     head, lines = prof.func(d, cname='validateTypedInitializer_decision', is_method=False)
     head = 'void semk_validateTypedInitializer_decision(TypeInfo targetInfo, TypeInfo initInfo, int line, int column, bl_cname name)'
     out.append((head, lines))
+    # the rule-enforcing visitor methods (one per syntactic site), selected by their parameter type
+    vis = [d for d in cxx2c.find_functions(docs, 'visit') if d.get('kind') in ('CXXMethodDecl', 'FunctionDecl')]
+    for site in SITES:
+        cand = [d for d in vis if any(pd.get('kind') == 'ParmVarDecl' and re.search(r'\b%s\b' % site, qt(pd)) for pd in kids(d))]
+        if len(cand) != 1:
+            raise Unsupported('visit(%s&): %d definitions' % (site, len(cand)))
+        try:
+            out.append(prof.func(cand[0], cname='visit_' + site, is_method=False))
+        except Unsupported as e:
+            if not hasattr(prof, 'region_unlowered'):
+                prof.region_unlowered = {}
+            prof.region_unlowered['visit_' + site] = str(e)
+            out.append(('void semk_visit_%s(bl_node node)' % site, None))
     return out
 
 
@@ -283,6 +368,54 @@ __CPROVER_ensures(1)
    instance of a subclass of the expected class, or null for a class reference; arrays need the same type. */
 #define WF_TI(t) ((t).className == 0 || (t).value == BL_Unknown)
 #define COMPAT_PRIM(e, a) (IS_PRIM(e) && (IS_UNKNOWN(a) || (IS_PRIM(a) && ((a).value == (e).value || ((e).value == BL_Long && (a).value == BL_Int)))))
+'''
+GHOSTS += r'''
+/* ---- analyser state read / written by the site visitors (arbitrary on entry) */
+_Bool sa_m_foundReturn, sa_m_inConstructor, sa_m_inStaticContext; TypeInfo sa_m_currentReturn; bl_cname sa_m_currentClass; int sa_m_constructorFinalAssignmentDepth;
+FieldInfo g_field;            /* the FieldInfo the class tables hold for the looked-up member (one arbitrary record) */
+FieldInfo *g_fih_ret;         /* ghost: what findFieldInHierarchy returned */
+int g_cnt_cell, g_cnt_other; bl_cname g_cnt_key;       /* m_constructorFinalAssignments observed at one arbitrary key */
+int g_rec_calls; _Bool g_rec_isFinal;                  /* ghost: recordFinalFieldAssignment calls (replacement side) */
+#ifndef NATIVE
+bl_cname __CPROVER_uninterpreted_key2(bl_cname, bl_cname);
+#define bl_key2 __CPROVER_uninterpreted_key2
+static inline int *semk_count_slot(bl_cname key) { if (key == g_cnt_key) return &g_cnt_cell; g_cnt_other = nondet_int(); __CPROVER_assume(g_cnt_other >= 0 && g_cnt_other < 1000000); return &g_cnt_other; }
+int __CPROVER_uninterpreted_ti_value(bl_ast); bl_cname __CPROVER_uninterpreted_ti_cls(bl_ast); size_t __CPROVER_uninterpreted_ti_args(bl_ast); int __CPROVER_uninterpreted_ti_tp(bl_ast);
+int __CPROVER_uninterpreted_vt_value(bl_cname); bl_cname __CPROVER_uninterpreted_vt_cls(bl_cname); size_t __CPROVER_uninterpreted_vt_args(bl_cname); int __CPROVER_uninterpreted_vt_tp(bl_cname);
+int __CPROVER_uninterpreted_declared(bl_cname); int __CPROVER_uninterpreted_finalvar(bl_cname); int __CPROVER_uninterpreted_is_this(bl_ast); int __CPROVER_uninterpreted_is_typeref(bl_ast);
+#define TI_OF(e) ((TypeInfo){ __CPROVER_uninterpreted_ti_value(e), __CPROVER_uninterpreted_ti_cls(e), __CPROVER_uninterpreted_ti_args(e), __CPROVER_uninterpreted_ti_tp(e) != 0 })
+#define VT_OF(n) ((TypeInfo){ __CPROVER_uninterpreted_vt_value(n), __CPROVER_uninterpreted_vt_cls(n), __CPROVER_uninterpreted_vt_args(n), __CPROVER_uninterpreted_vt_tp(n) != 0 })
+#define DECLARED(n) (__CPROVER_uninterpreted_declared(n) != 0)
+#define FINALVAR(n) (__CPROVER_uninterpreted_finalvar(n) != 0)
+#define IS_THIS(e) (__CPROVER_uninterpreted_is_this(e) != 0)
+#define IS_TYPEREF(e) (__CPROVER_uninterpreted_is_typeref(e) != 0)
+#define TI_EQ(a, b) ((a).value == (b).value && (a).className == (b).className && (a).typeArgs == (b).typeArgs && (a).isTypeParam == (b).isTypeParam)
+#define SEM_OR_NONE (bl_exc == 0 || bl_exc == EXC_SEM)
+_Bool semk_stub_isDeclared(bl_cname n) __CPROVER_assigns() __CPROVER_ensures(__CPROVER_return_value == DECLARED(n));
+_Bool semk_stub_isFinal(bl_cname n) __CPROVER_assigns() __CPROVER_ensures(__CPROVER_return_value == FINALVAR(n));
+_Bool semk_stub_isThisReference(bl_ast e) __CPROVER_assigns() __CPROVER_ensures(__CPROVER_return_value == IS_THIS(e));
+_Bool semk_stub_isTypeReference(bl_ast e) __CPROVER_assigns() __CPROVER_ensures(__CPROVER_return_value == IS_TYPEREF(e));
+TypeInfo semk_stub_getVariableType(bl_cname n) __CPROVER_assigns() __CPROVER_ensures(TI_EQ(__CPROVER_return_value, VT_OF(n)));
+TypeInfo semk_stub_combine(int prim, bl_cname cls) __CPROVER_assigns()
+__CPROVER_ensures(__CPROVER_return_value.value == prim && __CPROVER_return_value.className == cls && __CPROVER_return_value.typeArgs == 0 && !__CPROVER_return_value.isTypeParam);
+TypeInfo semk_stub_substituteTypeParams(TypeInfo t) __CPROVER_assigns() __CPROVER_ensures(1);
+bl_clsinfo semk_stub_findClass(bl_cname n) __CPROVER_assigns() __CPROVER_ensures(1);
+/* class-table lookup: the one arbitrary record or nothing (a model with a body: pointers returned by a replaced contract cannot be dereferenced in CBMC 6.11) */
+static inline FieldInfo *semk_stub_findFieldInHierarchy(TypeInfo t, bl_cname member) { g_fih_ret = nondet_bool() ? &g_field : (FieldInfo *)0; return g_fih_ret; }
+/* nested analysis: may raise (assumed: only Semantic errors) */
+void semk_stub_inferDiamondTypeArguments(bl_ast e, TypeInfo t, int line, int column) __CPROVER_requires(bl_exc == 0) __CPROVER_assigns(bl_exc, bl_exc_line, bl_exc_col) __CPROVER_ensures(SEM_OR_NONE);
+TypeInfo semk_stub_inferTypeInfo(bl_ast e) __CPROVER_requires(bl_exc == 0) __CPROVER_assigns(bl_exc, bl_exc_line, bl_exc_col) __CPROVER_ensures(SEM_OR_NONE) __CPROVER_ensures(TI_EQ(__CPROVER_return_value, TI_OF(e)));
+void semk_stub_accept(bl_ast e) __CPROVER_requires(bl_exc == 0) __CPROVER_assigns(bl_exc, bl_exc_line, bl_exc_col) __CPROVER_ensures(SEM_OR_NONE);
+#endif
+#define ACC(v, o, a) ((v) == BL_Public || ((v) == BL_Private && (o) == (a)) || ((v) == BL_Protected && (a) != 0 && ((a) == (o) || ((o) != 0 && SUBCLASS(a, o)))))
+#define ISVOID_T(t) ((t).value == BL_Void && (t).className == 0)
+/* accepted(T <- V) as the property states it: same type / int->long / subclass / null only for class references / same array type;
+   a genuinely unknown value type is the only wildcard */
+#define ACCEPT_OK(T, V) (IS_NULL(V) ? IS_CLASS(T) : IS_UNKNOWN(V) ? 1 : IS_PRIM(T) ? COMPAT_PRIM(T, V) \
+  : IS_CLASS(T) ? ((V).className != 0 && ((V).className == (T).className || SUBCLASS((V).className, (T).className))) \
+  : IS_ARRAY(T) ? (IS_ARRAY(V) && (V).className == (T).className) : 1)
+#define WF_T(t) ((t).value >= 0 && (t).value <= BL_Unknown && WF_TI(t) && !(t).isTypeParam)
+#define AT_NODE (bl_exc == EXC_SEM && bl_exc_line == node.line && bl_exc_col == node.column)
 '''
 RET = '__CPROVER_return_value'
 
@@ -349,8 +482,64 @@ CONTRACTS = {
         E('validateTypedInitializer.array_slot_accepts_same_array_type', '(bl_exc == 0 && IS_ARRAY(targetInfo) && targetInfo.value == BL_Unknown && !IS_UNKNOWN(initInfo)) ==> (IS_ARRAY(initInfo) && initInfo.className == targetInfo.className)', ['C16']),
         E('validateTypedInitializer.compatible_primitive_is_accepted', '(IS_PRIM(targetInfo) && IS_PRIM(initInfo) && (initInfo.value == targetInfo.value || (targetInfo.value == BL_Long && initInfo.value == BL_Int))) ==> bl_exc == 0', ['C16']),
     ]},
+    # ------------------------------------------------------------------ rule sites (one visitor per syntactic position)
+    'resolveField': {'contract': [
+        R('bl_exc == 0'), A('bl_exc, bl_exc_line, bl_exc_col, g_fih_ret'),
+        E('resolveField.only_semantic_errors_at_the_use', 'bl_exc == 0 || (bl_exc == EXC_SEM && bl_exc_line == line && bl_exc_col == column)', ['C16', 'C13']),
+        E('resolveField.result_is_the_table_entry_or_nothing', '%s == 0 || (%s == &g_field && bl_exc == 0)' % (RET, RET), []),
+        E('resolveField.inaccessible_field_rejected', '(sa_m_currentClass != 0 && g_fih_ret != 0 && !ACC(g_field.visibility, g_field.owner, sa_m_currentClass)) ==> bl_exc == EXC_SEM', ['C16']),
+        E('resolveField.instance_field_in_static_context_rejected', '(sa_m_currentClass != 0 && g_fih_ret != 0 && sa_m_inStaticContext && !g_field.isStatic) ==> bl_exc == EXC_SEM', ['C16']),
+        E('resolveField.accessible_field_is_found', '(sa_m_currentClass != 0 && g_fih_ret != 0 && ACC(g_field.visibility, g_field.owner, sa_m_currentClass) && (!sa_m_inStaticContext || g_field.isStatic)) ==> (bl_exc == 0 && %s == &g_field)' % RET, ['C16']),
+    ]},
+    'recordFinalFieldAssignment': {'prologue': 'g_rec_calls = g_rec_calls + 1; g_rec_isFinal = field.isFinal;', 'contract': [
+        R('bl_exc == 0 && sa_m_constructorFinalAssignmentDepth >= 0 && g_cnt_cell >= 0 && g_cnt_cell < 1000000 && g_rec_calls >= 0 && g_rec_calls < 1000'),
+        A('bl_exc, bl_exc_line, bl_exc_col, g_cnt_cell, g_cnt_other, g_rec_calls, g_rec_isFinal'),
+        E('', 'g_rec_calls == __CPROVER_old(g_rec_calls) + 1 && g_rec_isFinal == field.isFinal', []),
+        E('recordFinalFieldAssignment.only_semantic_errors_at_the_use', 'bl_exc == 0 || (bl_exc == EXC_SEM && bl_exc_line == line && bl_exc_col == column)', ['C16', 'C13']),
+        E('recordFinalFieldAssignment.non_final_field_is_free', '!field.isFinal ==> (bl_exc == 0 && g_cnt_cell == __CPROVER_old(g_cnt_cell))', ['C16']),
+        E('recordFinalFieldAssignment.final_only_in_own_constructor_at_top_level', '(field.isFinal && bl_exc == 0) ==> (sa_m_inConstructor && !field.isStatic && sa_m_constructorFinalAssignmentDepth == 0 && field.owner == sa_m_currentClass && !field.hasInitializer)', ['C16']),
+        E('recordFinalFieldAssignment.final_exactly_once_per_constructor', '(field.isFinal && bl_exc == 0 && bl_key2(field.owner, fieldName) == g_cnt_key) ==> (__CPROVER_old(g_cnt_cell) == 0 && g_cnt_cell == 1)', ['C16']),
+        E('recordFinalFieldAssignment.first_top_level_assignment_accepted', '(field.isFinal && sa_m_inConstructor && !field.isStatic && sa_m_constructorFinalAssignmentDepth == 0 && field.owner == sa_m_currentClass && !field.hasInitializer && bl_key2(field.owner, fieldName) == g_cnt_key && __CPROVER_old(g_cnt_cell) == 0) ==> bl_exc == 0', ['C16']),
+    ]},
+    'visit_ReturnStatement': {'contract': [
+        R('bl_exc == 0 && WF_T(sa_m_currentReturn) && sa_m_currentReturn.value != BL_Null && WF_T(TI_OF(node.value))'),
+        A('bl_exc, bl_exc_line, bl_exc_col, sa_m_foundReturn'),
+        E('return.only_semantic_errors', 'SEM_OR_NONE', ['C16', 'C13']),
+        E('return.value_in_void_function_rejected', '(node.value != 0 && ISVOID_T(sa_m_currentReturn)) ==> AT_NODE', ['C16']),
+        E('return.bare_return_in_non_void_function_rejected', '(node.value == 0 && !ISVOID_T(sa_m_currentReturn)) ==> AT_NODE', ['C16']),
+        E('return.bare_return_in_void_function_accepted', '(node.value == 0 && ISVOID_T(sa_m_currentReturn)) ==> bl_exc == 0', ['C16']),
+        E('return.accepted_value_has_the_declared_type', '(bl_exc == 0 && node.value != 0) ==> ACCEPT_OK(sa_m_currentReturn, TI_OF(node.value))', ['C16']),
+    ]},
 }
+def _assign_site(fn, lab):
+    return {'contract': [
+        R('bl_exc == 0 && WF_T(VT_OF(node.name)) && VT_OF(node.name).value != BL_Null && WF_T(TI_OF(node.value)) && WF_T(g_field.type) && g_field.type.value != BL_Null'),
+        R('sa_m_constructorFinalAssignmentDepth >= 0 && g_cnt_cell >= 0 && g_cnt_cell < 1000000 && g_rec_calls == 0'),
+        A('bl_exc, bl_exc_line, bl_exc_col, g_fih_ret, g_cnt_cell, g_cnt_other, g_rec_calls, g_rec_isFinal'),
+        E(lab + '.only_semantic_errors', 'SEM_OR_NONE', ['C16', 'C13']),
+        E(lab + '.final_variable_never_assigned', '(DECLARED(node.name) && FINALVAR(node.name)) ==> AT_NODE', ['C16']),
+        E(lab + '.accepted_value_has_the_declared_type', '(bl_exc == 0 && DECLARED(node.name) && node.value != 0) ==> ACCEPT_OK(VT_OF(node.name), TI_OF(node.value))', ['C16']),
+        E(lab + '.field_write_goes_through_the_final_field_rule', '(bl_exc == 0 && !DECLARED(node.name)) ==> (g_rec_calls == 1)', ['C16']),
+        E(lab + '.accepted_field_value_has_the_declared_type', '(bl_exc == 0 && !DECLARED(node.name) && node.value != 0) ==> ACCEPT_OK(g_field.type, TI_OF(node.value))', ['C16']),
+    ]}
+CONTRACTS_SITES = {
+    'visit_AssignmentStatement': _assign_site('visit_AssignmentStatement', 'assignment_statement'),
+    'visit_AssignmentExpression': _assign_site('visit_AssignmentExpression', 'assignment_expression'),
+    'visit_MemberAssignmentExpression': {'contract': [
+        R('bl_exc == 0 && WF_T(TI_OF(node.value)) && WF_T(g_field.type) && g_field.type.value != BL_Null && !TI_OF(node.object).isTypeParam && TI_OF(node.object).typeArgs == 0'),
+        R('sa_m_constructorFinalAssignmentDepth >= 0 && g_cnt_cell >= 0 && g_cnt_cell < 1000000 && g_rec_calls == 0'),
+        A('bl_exc, bl_exc_line, bl_exc_col, g_fih_ret, g_cnt_cell, g_cnt_other, g_rec_calls, g_rec_isFinal'),
+        E('member_assignment.only_semantic_errors', 'SEM_OR_NONE', ['C16', 'C13']),
+        E('member_assignment.needs_a_class_reference', '(bl_exc == 0) ==> TI_OF(node.object).className != 0', ['C16']),
+        E('member_assignment.inaccessible_field_rejected', '(bl_exc == 0) ==> ACC(g_field.visibility, g_field.owner, sa_m_currentClass)', ['C16']),
+        E('member_assignment.instance_field_not_assigned_via_type', '(bl_exc == 0) ==> (g_field.isStatic || !IS_TYPEREF(node.object))', ['C16']),
+        E('member_assignment.final_field_only_through_this_in_a_constructor', '(bl_exc == 0 && g_field.isFinal) ==> (sa_m_inConstructor && IS_THIS(node.object) && g_rec_calls == 1 && g_rec_isFinal)', ['C16']),
+        E('member_assignment.accepted_value_has_the_declared_type', '(bl_exc == 0 && node.value != 0) ==> ACCEPT_OK(g_field.type, TI_OF(node.value))', ['C16']),
+    ]},
+}
+CONTRACTS.update(CONTRACTS_SITES)
 STUBS = ['semk_stub_typeEquals', 'semk_stub_isSubclassOf', 'semk_stub_inheritanceDistance', 'semk_stub_getTypeParamBound', 'semk_stub_ast_shape']
+SITE_STUBS = ['semk_stub_' + x for x in ('isDeclared', 'isFinal', 'isThisReference', 'isTypeReference', 'getVariableType', 'combine', 'substituteTypeParams', 'findClass', 'inferDiamondTypeArguments', 'inferTypeInfo', 'accept')]
 HARNESSES = [
     dict(name='matchesPrimitive', fn='matchesPrimitive', replace=[], flags=[], props=['C16'], timeout=60),
     dict(name='numericPromotion', fn='numericPromotion', replace=[], flags=[], props=['C16', 'C07'], timeout=60),
@@ -358,11 +547,15 @@ HARNESSES = [
     dict(name='isArrayTypeName', fn='isArrayTypeName', replace=[], flags=[], props=['C16'], timeout=60),
     dict(name='isArrayType', fn='isArrayType', replace=['isArrayTypeName'], flags=[], props=['C16'], timeout=60),
     dict(name='isClassRefType', fn='isClassRefType', replace=['isArrayTypeName'], flags=[], props=['C16'], timeout=60),
-    dict(name='isAssignableType', fn='isAssignableType', replace=['isArrayType', 'isClassRefType', 'matchesPrimitive'] + STUBS[:4], flags=[], props=['C16', 'C08'], timeout=120, bounded_replace=STUBS[:4]),
-    dict(name='conversionCost', fn='conversionCost', replace=['isArrayType', 'isClassRefType'] + STUBS[:4], flags=[], props=['C16', 'C08'], timeout=120, bounded_replace=STUBS[:4]),
-    dict(name='validateTypedInitializer_decision', fn='validateTypedInitializer_decision', replace=['matchesPrimitive', 'isAssignableType'] + STUBS, flags=[], props=['C16', 'C13'], timeout=120, bounded_replace=STUBS,
+    dict(name='isAssignableType', fn='isAssignableType', bounded_unwindset=['semk_isAssignableType:1'], replace=['isArrayType', 'isClassRefType', 'matchesPrimitive'] + STUBS[:4], flags=[], props=['C16', 'C08'], timeout=120, bounded_replace=STUBS[:4]),
+    dict(name='conversionCost', fn='conversionCost', bounded_unwindset=['semk_conversionCost:1'], replace=['isArrayType', 'isClassRefType'] + STUBS[:4], flags=[], props=['C16', 'C08'], timeout=120, bounded_replace=STUBS[:4]),
+    dict(name='validateTypedInitializer_decision', fn='validateTypedInitializer_decision', bounded_unwindset=['semk_isAssignableType:1'], replace=['matchesPrimitive', 'isAssignableType'] + STUBS, flags=[], props=['C16', 'C13'], timeout=120, bounded_replace=STUBS,
          canaries=[('bl_exc == 0', 'accepted'), ('bl_exc != 0', 'rejected')]),
-]
+    dict(name='resolveField', fn='resolveField', replace=['isAccessible'] + SITE_STUBS, flags=[], props=['C16', 'C13'], timeout=120, bounded_replace=SITE_STUBS + STUBS[1:2]),
+    dict(name='recordFinalFieldAssignment', fn='recordFinalFieldAssignment', replace=[], flags=[], props=['C16', 'C13'], timeout=120,
+         canaries=[('bl_exc == 0 && a0.isFinal', 'final field accepted'), ('bl_exc != 0', 'rejected')]),
+] + [dict(name='visit_' + st, fn='visit_' + st, replace=['matchesPrimitive', 'isAssignableType', 'isAccessible', 'recordFinalFieldAssignment'] + SITE_STUBS + STUBS, flags=[], props=['C16', 'C13'], timeout=180, bounded_unwindset=['semk_isAssignableType:1'],
+          bounded_replace=SITE_STUBS + STUBS, canaries=[('bl_exc == 0 && a0.value != 0', 'accepted with a value'), ('bl_exc != 0', 'rejected')]) for st in SITES]
 
 
 # =========================================================================== native side
